@@ -954,6 +954,9 @@ func (env *SpecEnv) evalCall(x *ECall) (sval, error) {
 				return sval{}, fmt.Errorf("atlock takes one argument")
 			}
 			snap := f.top.lastLockSnap
+			if ps := env.st.snaps["#last"]; ps != nil && !env.inOld {
+				snap = ps // the most recent Lock on the path being evaluated
+			}
 			if snap == nil {
 				snap = env.old
 			}
